@@ -322,9 +322,24 @@ Proof.
     apply cshape_if. eapply cshape_widen; [exact Hsb | lia | lia].
 Qed.
 
-(* the arguments of a call, one after the other: plain expressions or names of functions *)
+(* the arguments of a call, one after the other: plain expressions, names of functions or lambdas *)
 Definition arg_ok (k : nat) (sc : list N) (a : Resolved.expr) : Prop :=
-  frag_expr pv sv bound fl k sc a = true \/ exists f sp, a = ERead f sp.
+  frag_expr pv sv bound fl k sc a = true \/ (exists f sp, a = ERead f sp) \/
+  (exists nm params rt body pure sp k' scr,
+     a = EFunction nm params rt body pure sp /\
+     frag_stmts pv sv bound (snd (bind_scope (param_ids params) (param_kinds params) sc fl)) k'
+                (fst (bind_scope (param_ids params) (param_kinds params) sc fl)) body = Some scr).
+
+Lemma frag_fexpr_ok k sc a K : frag_fexpr pv sv bound fl k sc a = Some K -> arg_ok k sc a.
+Proof.
+  intros H. destruct k as [|k]; [discriminate|]. destruct a; try discriminate H.
+  - right. left. eauto.
+  - right. right. cbn [frag_fexpr] in H.
+    match type of H with (if ?b then _ else _) = _ => destruct b eqn:Hc; [|discriminate H] end.
+    apply andb_prop in Hc as [_ Hb].
+    match type of Hb with is_some ?x = true => destruct x as [scr|] eqn:Hx; [|discriminate Hb] end.
+    do 8 eexists. split; [reflexivity | exact Hx].
+Qed.
 
 Lemma frag_args_ok k sc : forall ks args, frag_args pv sv bound fl k sc ks args = true -> Forall (arg_ok k sc) args.
 Proof.
@@ -332,23 +347,27 @@ Proof.
   destruct K.
   - apply andb_prop in H as [Ha Hr]. constructor; [left; exact Ha | apply IH; exact Hr].
   - apply andb_prop in H as [Ha Hr]. constructor; [|apply IH; exact Hr].
-    right. destruct a; try discriminate Ha. eauto.
+    destruct (frag_fexpr pv sv bound fl k sc a) as [K'|] eqn:Hf; [|discriminate Ha]. eapply frag_fexpr_ok. exact Hf.
 Qed.
 
-Lemma L_args g : L_expr pv sv bound u fl (S g) ->
+Lemma L_args g : L_expr pv sv bound u fl (S g) -> (forall fl', L_fb pv sv bound u fl' g) ->
   forall args k ctx c rs c' sc l,
     mapM (fun a => expression (S g) a ctx) args c = Ok (rs, c') ->
     Forall (arg_ok k sc) args ->
     exists b l', cshape u l (concat (map fst rs)) b l' c c' /\ (forall r, In r rs -> c <= snd r < c').
 Proof.
-  intros IH. induction args as [|a args IHa]; intros k ctx c rs c' sc l Hm Hf.
+  intros IH IHF. induction args as [|a args IHa]; intros k ctx c rs c' sc l Hm Hf.
   - destruct (mapM_nil_ok _ _ _ _ Hm) as [-> ->]. eexists _, _. split; [apply cshape_nil | intros r []].
   - apply mapM_cons_ok in Hm as (y & c1 & ys & Hy & Hys & ->). inversion Hf as [|? ? Hfa Hfs]; subst.
     destruct y as [code_a va].
     assert (H1 : exists b1 l1, cshape u l code_a b1 l1 c c1 /\ c <= va /\ va < c1).
-    { destruct Hfa as [Hfa|(f & fsp & ->)]; [exact (IH k a ctx c code_a va c1 sc l Hy Hfa)|].
-      cbn [expression] in Hy. mon Hy. fresh_all. injection H as <- <-.
-      eexists _, _. split; [|lia]. apply cshape_plain; [lia | reflexivity | reflexivity | apply used_plain]. }
+    { destruct Hfa as [Hfa|[(f & fsp & ->)|(nm & params & rt & body & pure & fsp & k' & scr & -> & Hfb)]]; [exact (IH k a ctx c code_a va c1 sc l Hy Hfa) | |].
+      - cbn [expression] in Hy. mon Hy. fresh_all. injection H as <- <-.
+        eexists _, _. split; [|lia]. apply cshape_plain; [lia | reflexivity | reflexivity | apply used_plain].
+      - cbn [expression] in Hy. mon Hy. fresh_all. injection H as <- <-.
+        destruct (IHF _ k' body ctx (c + 1) a0 c1 _ scr l Hm0 Hfb) as (bb & l1 & Hsb).
+        pose proof Hsb as (_ & Hcc & _).
+        eexists _, _. split; [apply cshape_fun_gen; exact Hsb | lia]. }
     destruct H1 as (b1 & l1 & Hs1 & Hv1 & Hv2).
     destruct (IHa k ctx c1 ys c' sc l1 Hys Hfs) as (b2 & l2 & Hs2 & Hrs).
     pose proof Hs1 as (_ & Hc1 & _). pose proof Hs2 as (_ & Hc2 & _).
@@ -356,9 +375,10 @@ Proof.
     intros r [<-|Hr]; [cbn [snd]; lia | specialize (Hrs r Hr); lia].
 Qed.
 
-Lemma L_expr_succ g : (forall fl', L_expr pv sv bound u fl' g) -> L_stmts g -> L_expr pv sv bound u fl (S g).
+Lemma L_expr_succ g : (forall fl', L_expr pv sv bound u fl' g) -> L_stmts g ->
+  (forall fl' g', (g' < g)%nat -> L_fb pv sv bound u fl' g') -> L_expr pv sv bound u fl (S g).
 Proof.
-  intros IHall IHs. pose proof (IHall fl) as IH. intros k x ctx c code v c' sc l Hlow Hfrag.
+  intros IHall IHs IHF. pose proof (IHall fl) as IH. intros k x ctx c code v c' sc l Hlow Hfrag.
   destruct k as [|k]; [discriminate|].
   destruct x; try discriminate Hfrag; cbn [frag_expr] in Hfrag.
   - (* ERead *)
@@ -377,7 +397,7 @@ Proof.
     destruct g as [|g']; [discriminate|].
     cbn [expression] in Hm. mon Hm. fresh_all. injection H as <- <-.
     cbn [fst snd] in *.
-    destruct (L_args g' IH args k ctx (c + 1) _ _ sc l Hm0 Hargs) as (b_a & l1 & Hsa & Hrs).
+    destruct (L_args g' IH (fun fl' => IHF fl' g' (Nat.lt_succ_diag_r g')) args k ctx (c + 1) _ _ sc l Hm0 Hargs) as (b_a & l1 & Hsa & Hrs).
     pose proof Hsa as (_ & Hca & _).
     eexists _, _. split.
     + eapply cshape_cons; [apply (cshape_plain u l (ICopy c var) c (c + 1)); [lia | reflexivity | reflexivity | apply used_plain] |].
@@ -621,7 +641,7 @@ Proof.
   - destruct (Nat.eq_dec g' (S g)) as [->|Hne]; [|apply IH; lia].
     assert (He : forall g', (g' <= g)%nat -> forall fl, L_expr pv sv bound u fl g') by (intros g'' H fl; apply IH; exact H).
     assert (Hs : forall fl, L_stmts pv sv bound u fl g) by (intros fl; apply (IH g (Nat.le_refl g) fl)).
-    assert (He1 : forall fl, L_expr pv sv bound u fl (S g)) by (intros fl; apply L_expr_succ; [intros fl'; apply He; lia | apply Hs]).
+    assert (He1 : forall fl, L_expr pv sv bound u fl (S g)) by (intros fl; apply L_expr_succ; [intros fl'; apply He; lia | apply Hs | intros fl' g'' Hg''; apply (IH g''); lia]).
     assert (Hst1 : forall fl, L_stmt pv sv bound u fl (S g)) by (intros fl; apply L_stmt_succ; [intros g'' H; apply He; exact H | apply Hs]).
     assert (Hss1 : forall fl, L_stmts pv sv bound u fl (S g)).
     { apply L_stmts_of; [exact Hst1|]. intros fl g2 Heq. apply (IH g2); lia. }
